@@ -45,6 +45,14 @@ pub fn visit_rdata(r: &RData, f: &mut dyn FnMut(&Name)) {
         RData::NAPTR(n) => f(&n.replacement),
         RData::SVCB(s) => f(&s.target_name),
         RData::HTTPS(s) => f(&s.0.target_name),
+        // the CAA value is kept as raw octets and parsed on demand (RFC 8659 4.2/4.3): run the deferred
+        // parsers, the issuer they yield is a name taken from network octets like any other
+        RData::CAA(caa) => {
+            if let Ok((Some(n), _params)) = caa.value_as_issue() {
+                f(&n)
+            }
+            let _ = caa.value_as_iodef();
+        }
         RData::TSIG(t) => {
             if let TsigAlgorithm::Unknown(n) = &t.algorithm {
                 f(n)
